@@ -281,7 +281,7 @@ fn apply_perm(w: &CliWorld, t: &Trial) -> CliWorld {
 
 fn gen_world(seed: u64) -> CliWorld {
   let mut r = Rng::stream(seed, "world");
-  cli_world::gen_world(&mut r, &GenOpts { max_files: 8, allow_special: false, with_tests: true, fix_heavy: false, order_sensitive_rules: true })
+  cli_world::gen_world(&mut r, &GenOpts { max_files: 8, allow_special: false, with_tests: true, fix_heavy: false, order_sensitive_rules: true, hard_links: false })
 }
 
 fn verdict(w: &CliWorld, ct: &Trial, t: &Trial) -> Option<(String, String)> {
